@@ -484,6 +484,50 @@ fn format_function(
 // * =RC+R1C1
 // * =A1+B1
 
+/// Grammar level at which the parser produces this node: 0 comparison, 1 `&`, 2 `+ -`, 3 `* /`,
+/// 4 `^`, 5 prefix sign / postfix `%`, 6 `:`, 7 `@` / `#`, 8 primary. A child printed in a
+/// position that the parser reads at a tighter level has to be parenthesised, otherwise the
+/// text parses back into a different formula (`(1+2)%` would become `1+2%`).
+fn precedence_level(node: &Node) -> u8 {
+    match node {
+        Node::CompareKind { .. } => 0,
+        Node::OpConcatenateKind { .. } => 1,
+        Node::OpSumKind { .. } => 2,
+        Node::OpProductKind { .. } => 3,
+        Node::OpPowerKind { .. } => 4,
+        Node::UnaryKind { .. } => 5,
+        Node::OpRangeKind { .. } => 6,
+        Node::ImplicitIntersection { .. } | Node::SpillRangeOperator { .. } => 7,
+        _ => 8,
+    }
+}
+
+/// Stringifies `node` for a position the parser reads at `min_level`, adding parentheses when
+/// the node binds looser than that.
+fn stringify_at_level(
+    node: &Node,
+    min_level: u8,
+    context: Option<&CellReferenceRC>,
+    displace_data: &DisplaceData,
+    export_to_excel: bool,
+    locale: &Locale,
+    language: &Language,
+) -> String {
+    let s = stringify(
+        node,
+        context,
+        displace_data,
+        export_to_excel,
+        locale,
+        language,
+    );
+    if precedence_level(node) < min_level {
+        format!("({s})")
+    } else {
+        s
+    }
+}
+
 fn stringify(
     node: &Node,
     context: Option<&CellReferenceRC>,
@@ -652,157 +696,112 @@ fn stringify(
         }
         OpRangeKind { left, right } => format!(
             "{}:{}",
-            stringify(
+            stringify_at_level(
                 left,
+                7,
                 context,
                 displace_data,
                 export_to_excel,
                 locale,
-                language
+                language,
             ),
-            stringify(
+            stringify_at_level(
                 right,
+                8,
                 context,
                 displace_data,
                 export_to_excel,
                 locale,
-                language
+                language,
             )
         ),
         OpConcatenateKind { left, right } => format!(
             "{}&{}",
-            stringify(
+            stringify_at_level(
                 left,
+                1,
                 context,
                 displace_data,
                 export_to_excel,
                 locale,
-                language
+                language,
             ),
-            stringify(
+            stringify_at_level(
                 right,
+                2,
                 context,
                 displace_data,
                 export_to_excel,
                 locale,
-                language
+                language,
             )
         ),
         CompareKind { kind, left, right } => format!(
             "{}{}{}",
-            stringify(
+            stringify_at_level(
                 left,
+                0,
                 context,
                 displace_data,
                 export_to_excel,
                 locale,
-                language
+                language,
             ),
             kind,
-            stringify(
+            stringify_at_level(
                 right,
+                1,
                 context,
                 displace_data,
                 export_to_excel,
                 locale,
-                language
+                language,
             )
         ),
         OpSumKind { kind, left, right } => {
-            // CompareKind has lower precedence than +/-, so wrap it to preserve semantics
-            let left_str = if matches!(**left, CompareKind { .. }) {
-                format!(
-                    "({})",
-                    stringify(
-                        left,
-                        context,
-                        displace_data,
-                        export_to_excel,
-                        locale,
-                        language
-                    )
-                )
-            } else {
-                stringify(
-                    left,
-                    context,
-                    displace_data,
-                    export_to_excel,
-                    locale,
-                    language,
-                )
-            };
-            // if kind is minus then we need parentheses in the right side if they are OpSumKind or CompareKind
-            let right_str = if (matches!(kind, OpSum::Minus) && matches!(**right, OpSumKind { .. }))
-                | matches!(**right, CompareKind { .. })
-            {
-                format!(
-                    "({})",
-                    stringify(
-                        right,
-                        context,
-                        displace_data,
-                        export_to_excel,
-                        locale,
-                        language
-                    )
-                )
-            } else {
-                stringify(
-                    right,
-                    context,
-                    displace_data,
-                    export_to_excel,
-                    locale,
-                    language,
-                )
-            };
-
+            // The left operand continues the same left-associative loop. The right operand is
+            // read one level tighter, so `1-(2-3)` keeps its parentheses; `1+(2+3)` is
+            // deliberately shown as `1+2+3`.
+            let left_str = stringify_at_level(
+                left,
+                2,
+                context,
+                displace_data,
+                export_to_excel,
+                locale,
+                language,
+            );
+            let right_level = if matches!(kind, OpSum::Minus) { 3 } else { 2 };
+            let right_str = stringify_at_level(
+                right,
+                right_level,
+                context,
+                displace_data,
+                export_to_excel,
+                locale,
+                language,
+            );
             format!("{left_str}{kind}{right_str}")
         }
         OpProductKind { kind, left, right } => {
-            let x = match **left {
-                OpSumKind { .. } | CompareKind { .. } => format!(
-                    "({})",
-                    stringify(
-                        left,
-                        context,
-                        displace_data,
-                        export_to_excel,
-                        locale,
-                        language
-                    )
-                ),
-                _ => stringify(
-                    left,
-                    context,
-                    displace_data,
-                    export_to_excel,
-                    locale,
-                    language,
-                ),
-            };
-            let y = match **right {
-                OpSumKind { .. } | CompareKind { .. } | OpProductKind { .. } => format!(
-                    "({})",
-                    stringify(
-                        right,
-                        context,
-                        displace_data,
-                        export_to_excel,
-                        locale,
-                        language
-                    )
-                ),
-                _ => stringify(
-                    right,
-                    context,
-                    displace_data,
-                    export_to_excel,
-                    locale,
-                    language,
-                ),
-            };
+            let x = stringify_at_level(
+                left,
+                3,
+                context,
+                displace_data,
+                export_to_excel,
+                locale,
+                language,
+            );
+            let y = stringify_at_level(
+                right,
+                4,
+                context,
+                displace_data,
+                export_to_excel,
+                locale,
+                language,
+            );
             format!("{x}{kind}{y}")
         }
         OpPowerKind { left, right } => {
@@ -959,74 +958,32 @@ fn stringify(
         DefinedNameKind((name, ..)) => name.to_string(),
         NamedVariableKind { name, id: _ } => name.to_string(),
         UnaryKind { kind, right } => match kind {
-            OpUnary::Minus => {
-                let needs_parentheses = match **right {
-                    BooleanKind(_)
-                    | NumberKind(_)
-                    | StringKind(_)
-                    | ReferenceKind { .. }
-                    | RangeKind { .. }
-                    | WrongReferenceKind { .. }
-                    | WrongRangeKind { .. }
-                    | OpRangeKind { .. }
-                    | OpConcatenateKind { .. }
-                    | OpProductKind { .. }
-                    | FunctionKind { .. }
-                    | NamedFunctionKind { .. }
-                    | LambdaDefKind { .. }
-                    | LambdaCallKind { .. }
-                    | ArrayKind(_)
-                    | DefinedNameKind(_)
-                    | TableNameKind(_)
-                    | NamedVariableKind { .. }
-                    | ImplicitIntersection { .. }
-                    | SpillRangeOperator { .. }
-                    | CompareKind { .. }
-                    | ErrorKind(_)
-                    | ParseErrorKind { .. }
-                    | EmptyArgKind => false,
-
-                    OpPowerKind { .. } | OpSumKind { .. } | UnaryKind { .. } => true,
-                };
-                if needs_parentheses {
-                    format!(
-                        "-({})",
-                        stringify(
-                            right,
-                            context,
-                            displace_data,
-                            export_to_excel,
-                            locale,
-                            language
-                        )
-                    )
-                } else {
-                    format!(
-                        "-{}",
-                        stringify(
-                            right,
-                            context,
-                            displace_data,
-                            export_to_excel,
-                            locale,
-                            language
-                        )
-                    )
-                }
-            }
-            OpUnary::Percentage => {
-                format!(
-                    "{}%",
-                    stringify(
-                        right,
-                        context,
-                        displace_data,
-                        export_to_excel,
-                        locale,
-                        language
-                    )
+            // parse_power reads `sign* range %*`: the operand of a sign is read at the range
+            // level, the operand of `%` may itself be a signed or percent expression
+            OpUnary::Minus => format!(
+                "-{}",
+                stringify_at_level(
+                    right,
+                    6,
+                    context,
+                    displace_data,
+                    export_to_excel,
+                    locale,
+                    language,
                 )
-            }
+            ),
+            OpUnary::Percentage => format!(
+                "{}%",
+                stringify_at_level(
+                    right,
+                    5,
+                    context,
+                    displace_data,
+                    export_to_excel,
+                    locale,
+                    language,
+                )
+            ),
         },
         ErrorKind(kind) => format!("{kind}"),
         ParseErrorKind { formula, .. } => formula.to_string(),
@@ -1047,8 +1004,9 @@ fn stringify(
             };
             format!(
                 "{}#",
-                stringify(
+                stringify_at_level(
                     child,
+                    8,
                     context,
                     displace_data,
                     export_to_excel,
@@ -1142,8 +1100,9 @@ fn stringify(
             }
             format!(
                 "@{}",
-                stringify(
+                stringify_at_level(
                     child,
+                    8,
                     context,
                     displace_data,
                     export_to_excel,
